@@ -3,6 +3,8 @@
 package compiler
 
 import (
+	"io"
+
 	"encoding/binary"
 
 	"github.com/elk-language/elk/bytecode"
@@ -70,12 +72,28 @@ func vxLineTableCoversCode(c *BytecodeCompiler) bool {
 	return total == len(c.bytecode.Instructions)
 }
 
+// the disassembler walks the emitted code instruction by instruction, without an error, and ends
+// exactly at the end of the code (it reads every operand with the width the emitter wrote)
+func vxDisassembles(c *BytecodeCompiler) bool {
+	fn := c.bytecode
+	off := 0
+	for off < len(fn.Instructions) {
+		next, err := fn.DisassembleInstruction(io.Discard, off)
+		if err != nil || next <= off {
+			return false
+		}
+		off = next
+	}
+	return off == len(fn.Instructions)
+}
+
 func VX_C29_get_local() {
 	idx := vxIndex("idx", vxNLocals)
 	c := vxCompiler()
 	c.emitGetLocal(1, idx)
 	c.emit(1, bytecode.RETURN)
 	vxAssert(vxLineTableCoversCode(c), "get-local/line-table-covers-every-byte")
+	vxAssert(vxDisassembles(c), "get-local/disassembles-to-the-end-of-the-code")
 	got, err := vm.VXExec(c.bytecode, vxLocals(vxNLocals), 2, nil)
 	vxAssert(err.IsUndefined() && got.IsSmallInt() && int(got.AsSmallInt()) == int(idx), "get-local/vm-reads-the-emitted-index")
 }
@@ -94,6 +112,7 @@ func VX_C29_set_local() {
 	c.emitGetLocal(1, idx)
 	c.emit(1, bytecode.RETURN)
 	vxAssert(vxLineTableCoversCode(c), "set-local/line-table-covers-every-byte")
+	vxAssert(vxDisassembles(c), "set-local/disassembles-to-the-end-of-the-code")
 	got, err := vm.VXExec(c.bytecode, vxLocals(vxNLocals), 3, nil)
 	vxAssert(err.IsUndefined() && got.IsSmallInt() && got.AsSmallInt() == 77, "set-local/vm-writes-the-emitted-index")
 }
@@ -113,6 +132,7 @@ func VX_C29_upvalue() {
 	c.emitGetUpvalue(1, idx)
 	c.emit(1, bytecode.RETURN)
 	vxAssert(vxLineTableCoversCode(c), "upvalue/line-table-covers-every-byte")
+	vxAssert(vxDisassembles(c), "upvalue/disassembles-to-the-end-of-the-code")
 	got, err := vm.VXExec(c.bytecode, vxLocals(1), 3, ups)
 	want := int(idx)
 	if set {
@@ -128,6 +148,7 @@ func VX_C29_small_int() {
 	c.emitSmallInt(value.SmallInt(i), vxLoc)
 	c.emit(1, bytecode.RETURN)
 	vxAssert(vxLineTableCoversCode(c), "small-int/line-table-covers-every-byte")
+	vxAssert(vxDisassembles(c), "small-int/disassembles-to-the-end-of-the-code")
 	got, err := vm.VXExec(c.bytecode, vxLocals(1), 2, nil)
 	vxAssert(err.IsUndefined() && got.IsSmallInt() && int64(got.AsSmallInt()) == i, "small-int/vm-loads-the-emitted-literal")
 }
@@ -143,6 +164,7 @@ func VX_C29_load_value() {
 	c.emit(1, bytecode.RETURN)
 	vxAssert(id == k, "load-value/pool-index")
 	vxAssert(vxLineTableCoversCode(c), "load-value/line-table-covers-every-byte")
+	vxAssert(vxDisassembles(c), "load-value/disassembles-to-the-end-of-the-code")
 	got, err := vm.VXExec(c.bytecode, vxLocals(1), 2, nil)
 	vxAssert(err.IsUndefined() && got.IsFloat() && got.AsFloat() == 2.5, "load-value/vm-loads-the-emitted-pool-entry")
 }
@@ -158,6 +180,7 @@ func VX_C29_new_list() {
 	c.emitNewArrayList(size, vxLoc)
 	c.emit(1, bytecode.RETURN)
 	vxAssert(vxLineTableCoversCode(c), "new-list/line-table-covers-every-byte")
+	vxAssert(vxDisassembles(c), "new-list/disassembles-to-the-end-of-the-code")
 	got, err := vm.VXExec(c.bytecode, vxLocals(1), size+3, nil)
 	ok := err.IsUndefined() && got.IsReference()
 	if ok {
@@ -187,6 +210,7 @@ func VX_C29_jump_forward() {
 	c.emit(1, bytecode.INT_5)
 	c.emit(1, bytecode.RETURN)
 	vxAssert(vxLineTableCoversCode(c), "jump/line-table-covers-every-byte")
+	vxAssert(vxDisassembles(c), "jump/disassembles-to-the-end-of-the-code")
 	got, err := vm.VXExec(c.bytecode, vxLocals(1), 3, nil)
 	vxAssert(err.IsUndefined() && got.IsSmallInt() && got.AsSmallInt() == 5, "jump/lands-on-the-instruction-after-the-patch-point")
 }
@@ -211,6 +235,7 @@ func VX_C29_loop() {
 	c.emit(1, bytecode.INT_4)
 	c.emit(1, bytecode.RETURN)
 	vxAssert(vxLineTableCoversCode(c), "loop/line-table-covers-every-byte")
+	vxAssert(vxDisassembles(c), "loop/disassembles-to-the-end-of-the-code")
 	got, err := vm.VXExec(c.bytecode, vxLocals(1), 3, nil)
 	vxAssert(err.IsUndefined() && got.IsSmallInt() && got.AsSmallInt() == 3, "loop/lands-on-the-start-offset")
 }
